@@ -687,9 +687,12 @@ fn check_c18(tier: Tier, seed: u64) -> i32 {
         Tier::Quick => (2, runs_override(60_000)),
         Tier::Thorough => (2, runs_override(3_000_000)),
     };
-    let out = comp::sweep_c18(seed, exh, sampled);
+    let mut out = comp::sweep_c18(seed, exh, sampled);
+    let draws_wide: u64 = match tier { Tier::Quick => 4_300_000_000, Tier::Thorough => 60_000_000_000 };
+    let hunt = comp::prng_boundary_hunt(seed, std::env::var("PFSIM_HUNT").ok().and_then(|s| s.parse().ok()).unwrap_or(draws_wide), &mut out.stats);
+    out.found.extend(hunt);
     finish_comp("C18", tier, seed, out, &known, t0,
-        "comp scenario: every EntropySource method x argument grid {0,1,2,3,255,256,257,65535,65536,2^32,MAX-1,MAX} x ALL fuzzer scripts of length 0..2 (single draws), plus sampled scripts of length 3..16 at every cut with sequences of 1..6 draws, plus sampled PRNG seeds; non-trivial = the script is shorter than the draws need (short read / exhaustion fired); distinct (case, results)",
+        "comp scenario: every EntropySource method x argument grid {0,1,2,3,255,256,257,65535,65536,2^32,MAX-1,MAX} x ALL fuzzer scripts of length 0..2 (single draws), plus sampled scripts of length 3..16 at every cut with sequences of 1..6 draws, plus sampled PRNG seeds, plus a PRNG-side boundary hunt (gen_range on real ChaCha8 sources: enough draws per span — 4.3e9 (quick) or 6e10 (thorough) per span around 2^32 — that an inclusive upper bound would be produced several times); non-trivial = the script is shorter than the draws need (short read / exhaustion fired); distinct (case, results)",
         true)
 }
 
